@@ -49,7 +49,7 @@ from worlds.common import simulate
 from worlds.fs import fakes
 from worlds.fs.util import InlinePool, SeededModuleRandom, drain_tasks
 
-fakes.install()  # before any repository module that imports boto3 / botocore / azure.* is imported
+fakes.install()  # functional boto3 / botocore / azure.* surfaces on top of the shim's stub modules (order-independent)
 
 NAME = 'fs.ranged'
 RULE = ('one backend per run (local, gcs, s3, azure; optionally through RouterAsyncFS), object size 0..3C+1 for transport '
